@@ -48,6 +48,39 @@ def select_table(ob, b, kind):
             continue
         break
 
+    def multi(l):
+        return len([d for d in b.defs().get(l, []) if d[0] != "partial"]) >= 2
+
+    def chase(op_):
+        """follow single-def copies from an operand to a multi-def local (a carrier) or None"""
+        p = op_place(op_)
+        g = 0
+        while p is not None and isinstance(p, int) and g < 8:
+            if multi(p):
+                return p
+            ds_ = [d for d in b.defs().get(p, []) if d[0] != "partial"]
+            if len(ds_) == 1 and ds_[0][0] == "assign" and ds_[0][3]["k"] == "use":
+                p = op_place(ds_[0][3]["op"])
+                g += 1
+                continue
+            return None
+        return None
+
+    carriers = set()
+    work = [L]
+    while work:
+        c_ = work.pop()
+        for d in b.defs().get(c_, []):
+            if d[0] != "assign":
+                continue
+            rv_ = d[3]
+            ops_ = [rv_["op"]] if rv_["k"] == "use" else (rv_["ops"] if rv_["k"] == "agg" and rv_.get("variant") == "Some" else [])
+            for op_ in ops_:
+                x_ = chase(op_)
+                if x_ is not None and x_ != L and x_ not in carriers:
+                    carriers.add(x_)
+                    work.append(x_)
+
     def who(t):
         """req / def: which of the two inputs a payload term denotes"""
         s = strip_identity(t)
@@ -82,6 +115,10 @@ def select_table(ob, b, kind):
             return "sleep=map(td)"
         if name_matches(c.fn, ("tokio::time::sleep::sleep", "tokio::time::sleep::sleep_until", "tokio::time::timeout::timeout")):
             return "sleep?"
+        if isinstance(c.dest, int) and c.dest in carriers:
+            if name_matches(c.fn, ("cmp::min", "cmp::Ord::min")) and {who_field(oo.of_operand(c.args[0])), who_field(oo.of_operand(c.args[1]))} == {"req", "def"}:
+                return "v=min(req,def)"
+            return "v=?" + (c.fn or "?").split("::")[-1]
         if name_matches(c.fn, ("cmp::min", "cmp::Ord::min", "cmp::max", "cmp::Ord::max")) or is_tracing(c):
             return None
         if name_matches(c.fn, ("Result::unwrap_or_else", "Request::headers", "cmp::PartialOrd::lt", "cmp::PartialOrd::le", "cmp::PartialOrd::gt",
@@ -107,11 +144,18 @@ def select_table(ob, b, kind):
 
     def stmt_sym(bbi, s, oo):
         lhs = s["lhs"]
+        if isinstance(lhs, int) and lhs in carriers:
+            t = strip_identity(oo.of_rvalue(s["rv"]))
+            if t[0] == "call" and name_matches(t[1], ("cmp::min", "cmp::Ord::min")) and {who_field(t[2][0]), who_field(t[2][1])} == {"req", "def"}:
+                return "v=min(req,def)"
+            return f"v={who_field(t)}"
         if lhs == L:
             rv = s["rv"]
             if rv["k"] == "agg" and rv.get("adt") == "core::option::Option":
                 if rv["variant"] == "None":
                     return "td=None"
+                if chase(rv["ops"][0]) in carriers:
+                    return "td=Some(v)"
                 t = strip_identity(oo.of_operand(rv["ops"][0]))
                 if t[0] == "call" and name_matches(t[1], ("cmp::min", "cmp::Ord::min")):
                     ws_ = {who_field(t[2][0]), who_field(t[2][1])}
@@ -140,13 +184,18 @@ def select_table(ob, b, kind):
         ob.count()
         conds = {}
         td = None
+        lastv = "?"
         cmps = []
         rest = []
         for s in w:
             if s.startswith("req=") or s.startswith("def="):
                 conds[s[:3]] = s[4:]
+            elif s.startswith("v="):
+                lastv = s[2:]
             elif s.startswith("td="):
                 td = s[3:]
+                if td == "Some(v)":
+                    td = f"Some({lastv})"
             elif s.startswith("cmp:"):
                 cmps.append(s)
             else:
